@@ -169,6 +169,51 @@ Proof.
     simpl in L1; discriminate.
 Qed.
 
+(* setup_task_paths with its refusal: it refuses exactly when the corrected
+   output name is an input; otherwise neither of the two paths it unlinks
+   (output, temporary name) is an input file *)
+Lemma existsb_zlist : forall o l,
+    existsb (zlist_eqb o) l = true <-> In o l.
+Proof.
+  intros o l. rewrite existsb_exists. split.
+  - intros (x & Hin & E). apply zlist_eqb_eq in E. subst; auto.
+  - intros H. exists o. split; auto. apply zlist_eqb_refl.
+Qed.
+
+Theorem setup_refuses_iff : forall inputs name,
+    setup_paths inputs name = None <-> In (normalize_out name) inputs.
+Proof.
+  intros inputs name. unfold setup_paths.
+  destruct (existsb (zlist_eqb (normalize_out name)) inputs) eqn:E.
+  - apply existsb_zlist in E. tauto.
+  - split; [discriminate|]. intros H. apply existsb_zlist in H. congruence.
+Qed.
+
+Theorem setup_unlinks_no_input : forall inputs name o t,
+    name <> [] ->
+    (forall inp, In inp inputs -> allowed_input inp = true) ->
+    setup_paths inputs name = Some (o, t) ->
+    o = normalize_out name /\ t = o ++ [tilde]
+    /\ ~ In o inputs /\ ~ In t inputs.
+Proof.
+  intros inputs name o t Hne Hal H. unfold setup_paths in H.
+  destruct (existsb (zlist_eqb (normalize_out name)) inputs) eqn:E;
+    try discriminate.
+  inversion H; subst o t; clear H.
+  split; auto. split; [apply temp_is_out_tilde; auto|].
+  split.
+  - intros Hin. apply existsb_zlist in Hin. congruence.
+  - intros Hin. apply (temp_not_an_input name _ Hne (Hal _ Hin)). reflexivity.
+Qed.
+
+(* "in" for the input "in.rtdc" is refused; "in.repacked" is not *)
+Example ex_setup_refuses :
+  setup_paths [[105; 110] ++ s_rtdc] [105; 110] = None
+  /\ setup_paths [[105; 110] ++ s_rtdc] ([105; 110] ++ [46; 120])
+     = Some ([105; 110; 46; 120] ++ s_rtdc,
+             [105; 110; 46; 120] ++ s_rtdc ++ [tilde]).
+Proof. vm_compute. auto. Qed.
+
 (* non-vacuity: "out" -> ("out.rtdc", "out.rtdc~");  "a.b.rtdc" keeps its name *)
 Example ex_setup_names_1 :
   setup_names [111; 117; 116]
